@@ -1,9 +1,10 @@
 ---------------------------- MODULE Bank ----------------------------
 (* C14. The bank keeper of tm2/pkg/sdk/bank (keeper.go, supply.go, balance.go) with the
-   account keeper it writes through (auth/keeper.go): one action per public call, each with
+   account keeper it writes through (auth/keeper.go): one operator per public call, each with
    the branch structure of the code, so that the reply class and the raw store contents can
    be compared step by step.
 
+   The keeper's state is the record  S = [acc, bal, supply, unp, n]:
      bal[a][d]   balance of address a in denom d. Denom "u" is the account-tier denom (held
                  inside the account object, /a/<addr>), denom "t" is a split-tier denom (own
                  key /b/<addr><denom>). The projection st splits bal by tier; the driver dumps
@@ -13,10 +14,14 @@
      acc[a]      account object: kind none | gno (plain) | vest (vesting) | base (a vesting
                  account collapsed after its schedule ended), account number, whitelist flag,
                  vesting schedule
+     n           the global account-number counter
      unp[d]      GHOST: net amount credited by calls that by contract do NOT maintain the
                  supply counter (raw AddCoins / SubtractCoins / SetCoins / genesis balances).
                  SupplyEq is  supply + unp = sum of balances; the repository's own
-                 bank.SupplyInvariant must report "broken" exactly when unp # 0.
+                 bank.SupplyInvariant must report "broken" exactly when supply # sum.
+   Every call is a pure operator  XRes(S, t, args) = [err, s]  (t = block time); the actions
+   below apply them to the variables, BankTrace.tla composes the same operators into the
+   effect of a whole transaction of the real application.
 
    Named deviations / modelling decisions (DESIGN 4.3):
    * Error return vs panic. The keeper documents error atomicity for subtract, AddCoins,
@@ -39,7 +44,7 @@ CONSTANTS Addrs,      \* addresses; must contain "coll" (fee collector)
           MaxLen,     \* bound on the history length
           MaxTime,    \* block time runs 0..MaxTime
           RawOps,     \* BOOLEAN: generate the calls that do not maintain supply (genesis style)
-          IOAmts,     \* amounts used by the multi-send shapes (subset of [Denoms -> Nat], non-zero)
+          IOAmts,     \* amounts used by the multi-send shapes (non-zero elements of [Denoms -> Nat])
           Genesis     \* sequence of [a, kind, wl, amt, vs]: initial accounts, applied like gnoland's applyBalance
 
 Denoms == {"u", "t"}
@@ -49,12 +54,15 @@ NoAcc == [kind |-> "none", num |-> -1, wl |-> FALSE, vs |-> NoVs]
 AmtSet == [Denoms -> Amts]
 IsZero(x) == \A d \in Denoms : x[d] = 0
 Max(x, y) == IF x > y THEN x ELSE y
+Plus(x, y) == [d \in Denoms |-> x[d] + y[d]]
+Minus(x, y) == [d \in Denoms |-> x[d] - y[d]]
 
 VARIABLES acc, bal, supply, unp, nextNum, now, restricted, hist, last
 
 vars == <<acc, bal, supply, unp, nextNum, now, restricted>>
+Cur == [acc |-> acc, bal |-> bal, supply |-> supply, unp |-> unp, n |-> nextNum]
 
-\* ------------------------------------------------------------------ vesting schedule
+\* ------------------------------------------------------------------ vesting schedule (std/vesting_account.go)
 Vested(v, t, d) ==
   IF v.type = "delayed" THEN (IF t >= v.end THEN v.ov[d] ELSE 0)
   ELSE IF t <= v.start THEN 0
@@ -64,194 +72,165 @@ Locked(v, t, d) == v.ov[d] - Vested(v, t, d)
 AllVested(v, t) == \A d \in Denoms : Locked(v, t, d) = 0
 
 RECURSIVE SumOver(_, _, _)
-SumOver(B, S, d) == IF S = {} THEN 0 ELSE LET a == CHOOSE x \in S : TRUE IN B[a][d] + SumOver(B, S \ {a}, d)
+SumOver(B, X, d) == IF X = {} THEN 0 ELSE LET a == CHOOSE x \in X : TRUE IN B[a][d] + SumOver(B, X \ {a}, d)
 Held(B, d) == SumOver(B, Addrs, d)
 
-\* ------------------------------------------------------------------ projection
-Proj(A, B, S, n) ==
-  [acct  |-> [a \in Addrs |-> [d \in Denoms |-> IF d = "u" THEN B[a][d] ELSE 0]],
-   split |-> [a \in Addrs |-> [d \in Denoms |-> IF d = "u" THEN 0 ELSE B[a][d]]],
-   supply |-> S,
-   accs |-> [a \in Addrs |-> [kind |-> A[a].kind, num |-> A[a].num]],
-   nextnum |-> n,
-   bankinv |-> (\A d \in Denoms : S[d] = Held(B, d))]     \* what bank.AllInvariants must say
-
-\* ------------------------------------------------------------------ genesis (applyBalance in order + seedSupply)
-\* Genesis is a sequence of [a, kind, wl, amt, vs]; account numbers are handed out in that order.
-GenIdx(a) == IF \E i \in 1..Len(Genesis) : Genesis[i].a = a
-             THEN CHOOSE i \in 1..Len(Genesis) : Genesis[i].a = a ELSE 0
-GenBal == [a \in Addrs |-> IF GenIdx(a) > 0 THEN Genesis[GenIdx(a)].amt ELSE Zero]
-Init ==
-  /\ acc = [a \in Addrs |-> IF GenIdx(a) > 0
-                            THEN LET g == Genesis[GenIdx(a)] IN [kind |-> g.kind, num |-> GenIdx(a) - 1, wl |-> g.wl, vs |-> g.vs]
-                            ELSE NoAcc]
-  /\ bal = GenBal
-  /\ supply = [d \in Denoms |-> SumOver(GenBal, Addrs, d)]
-  /\ unp = Zero
-  /\ nextNum = Len(Genesis)
-  /\ now = 0
-  /\ restricted = FALSE
-  /\ hist = << [act |-> "Genesis", gen |-> Genesis, addrs |-> Addrs, reply |-> "ok",
-                st |-> Proj(acc, bal, supply, nextNum)] >>     \* the behaviour carries its own initial state
-  /\ last = [act |-> "Init", reply |-> "ok"]
+\* ------------------------------------------------------------------ projection: what the driver dumps from the raw store
+Proj(S) ==
+  [acct  |-> [a \in Addrs |-> [d \in Denoms |-> IF d = "u" THEN S.bal[a][d] ELSE 0]],
+   split |-> [a \in Addrs |-> [d \in Denoms |-> IF d = "u" THEN 0 ELSE S.bal[a][d]]],
+   supply |-> S.supply,
+   accs |-> [a \in Addrs |-> [kind |-> S.acc[a].kind, num |-> S.acc[a].num]],
+   nextnum |-> S.n,
+   bankinv |-> (\A d \in Denoms : S.supply[d] = Held(S.bal, d))]     \* what bank.AllInvariants must say
 
 \* ------------------------------------------------------------------ the debit / credit cores (keeper.go subtract, AddCoins)
-Upg(A, t, a) == A[a].kind = "vest" /\ AllVested(A[a].vs, t)
+Ok(S) == [err |-> "none", s |-> S]
+Err(e, S) == [err |-> e, s |-> S]
 
 \* SubtractCoins (enforce = TRUE) / subtractCoinsUnrestricted (enforce = FALSE)
-SubRes(A, B, t, a, amt, enforce) ==
-  LET up == Upg(A, t, a)
+SubRes(S, t, a, amt, enforce) ==
+  LET A == S.acc
+      B == S.bal
+      up == A[a].kind = "vest" /\ AllVested(A[a].vs, t)            \* upgradeVestingAccount
       still == A[a].kind = "vest" /\ ~up
       vestFail == enforce /\ still /\
                   \E d \in Denoms : /\ amt[d] > 0
                                     /\ Locked(A[a].vs, t, d) > 0
                                     /\ Max(B[a][d] - Locked(A[a].vs, t, d), 0) < amt[d]
       insuff == \E d \in Denoms : amt[d] > B[a][d]
-  IN IF vestFail THEN [err |-> "vesting", acc |-> A, bal |-> B]
-     ELSE IF insuff THEN [err |-> "insufficient", acc |-> A, bal |-> B]
-     ELSE [err |-> "none",
-           acc |-> IF up THEN [A EXCEPT ![a].kind = "base", ![a].vs = NoVs] ELSE A,
-           bal |-> [B EXCEPT ![a] = [d \in Denoms |-> B[a][d] - amt[d]]]]
+  IN IF vestFail THEN Err("vesting", S)
+     ELSE IF insuff THEN Err("insufficient", S)
+     ELSE Ok([S EXCEPT !.acc = IF up THEN [A EXCEPT ![a].kind = "base", ![a].vs = NoVs] ELSE A,
+                       !.bal = [B EXCEPT ![a] = Minus(B[a], amt)]])
 
-\* AddCoins: overflow panics (before anything is kept: the transaction aborts)
-AddRes(A, B, n, a, amt) ==
-  IF \E d \in Denoms : B[a][d] + amt[d] > Cap
-  THEN [err |-> "panic", acc |-> A, bal |-> B, n |-> n]
-  ELSE [err |-> "none",
-        acc |-> IF A[a].kind = "none" THEN [A EXCEPT ![a] = [kind |-> "gno", num |-> n, wl |-> FALSE, vs |-> NoVs]] ELSE A,
-        bal |-> [B EXCEPT ![a] = [d \in Denoms |-> B[a][d] + amt[d]]],
-        n |-> IF A[a].kind = "none" THEN n + 1 ELSE n]
+\* AddCoins: overflow panics (nothing is kept: the transaction aborts); creates the account
+AddRes(S, a, amt) ==
+  IF \E d \in Denoms : S.bal[a][d] + amt[d] > Cap THEN Err("panic", S)
+  ELSE LET new == S.acc[a].kind = "none" IN
+       Ok([S EXCEPT !.acc = IF new THEN [S.acc EXCEPT ![a] = [kind |-> "gno", num |-> S.n, wl |-> FALSE, vs |-> NoVs]] ELSE S.acc,
+                    !.bal = [S.bal EXCEPT ![a] = Plus(S.bal[a], amt)],
+                    !.n = IF new THEN S.n + 1 ELSE S.n])
+
+\* r ; F  (second step only when the first succeeded)
+Then(r, F(_)) == IF r.err # "none" THEN r ELSE F(r.s)
 
 \* canSendCoins
-CanSend(A, a, amt) == ~restricted \/ amt["u"] = 0 \/ A[a].wl
+CanSend(S, rst, a, amt) == ~rst \/ amt["u"] = 0 \/ S.acc[a].wl
 
-\* ------------------------------------------------------------------ recording
-Rec(r, reply, A, B, S, n) == Append(hist, [r EXCEPT !.reply = reply, !.st = Proj(A, B, S, n)])
-Fail(r, reply) ==
-  /\ UNCHANGED vars
-  /\ hist' = Rec(r, reply, acc, bal, supply, nextNum)
-  /\ last' = [act |-> r.act, reply |-> reply]
-Done(r, A, B, S, U, n) ==
-  /\ acc' = A /\ bal' = B /\ supply' = S /\ unp' = U /\ nextNum' = n
-  /\ UNCHANGED <<now, restricted>>
-  /\ hist' = Rec(r, "ok", A, B, S, n)
-  /\ last' = [act |-> r.act, reply |-> "ok"]
-Bound == Len(hist) < MaxLen
-R0(act) == [act |-> act, reply |-> "", st |-> <<>>]
-
-\* ------------------------------------------------------------------ actions
-SendCoins(f, t, amt) ==
-  LET r == R0("SendCoins") @@ [from |-> f, to |-> t, amt |-> amt] IN
-  /\ Bound
-  /\ IF IsZero(amt) THEN Fail(r, "ok")                                   \* returns nil before anything
-     ELSE IF ~CanSend(acc, f, amt) THEN Fail(r, "restricted")
-     ELSE LET s == SubRes(acc, bal, now, f, amt, TRUE) IN
-          IF s.err # "none" THEN Fail(r, s.err)
-          ELSE LET c == AddRes(s.acc, s.bal, nextNum, t, amt) IN
-               IF c.err # "none" THEN Fail(r, c.err)
-               ELSE Done(r, c.acc, c.bal, supply, unp, c.n)
+SendRes(S, t, rst, f, to, amt) ==
+  IF IsZero(amt) THEN Ok(S)                                          \* returns nil before anything
+  ELSE IF ~CanSend(S, rst, f, amt) THEN Err("restricted", S)
+  ELSE LET r == Then(SubRes(S, t, f, amt, TRUE), LAMBDA s1 : AddRes(s1, to, amt))
+       IN IF r.err # "none" THEN Err(r.err, S) ELSE r                \* panic: abort; error: nothing was written
 
 \* gas fees' transfer primitive, storage-deposit lock and refund
-SendCoinsUnrestricted(f, t, amt) ==
-  LET r == R0("SendCoinsUnrestricted") @@ [from |-> f, to |-> t, amt |-> amt]
-      s == SubRes(acc, bal, now, f, amt, FALSE) IN
-  /\ Bound
-  /\ IF s.err # "none" THEN Fail(r, s.err)
-     ELSE LET c == AddRes(s.acc, s.bal, nextNum, t, amt) IN
-          IF c.err # "none" THEN Fail(r, c.err)
-          ELSE Done(r, c.acc, c.bal, supply, unp, c.n)
+SendUnrRes(S, t, f, to, amt) ==
+  LET r == Then(SubRes(S, t, f, amt, FALSE), LAMBDA s1 : AddRes(s1, to, amt))
+  IN IF r.err # "none" THEN Err(r.err, S) ELSE r
 
 \* auth.DeductFees: balance check through GetCoin, then SendCoinsUnrestricted to the collector
-DeductFee(a, fee) ==
-  LET r == R0("DeductFee") @@ [from |-> a, fee |-> fee]
-      amt == [d \in Denoms |-> IF d = "u" THEN fee ELSE 0] IN
-  /\ Bound /\ fee > 0 /\ acc[a].kind # "none"
-  /\ IF bal[a]["u"] < fee THEN Fail(r, "funds")
-     ELSE LET s == SubRes(acc, bal, now, a, amt, FALSE)
-              c == AddRes(s.acc, s.bal, nextNum, "coll", amt) IN
-          IF c.err # "none" THEN Fail(r, c.err)
-          ELSE Done(r, c.acc, c.bal, supply, unp, c.n)
+FeeRes(S, t, a, fee) ==
+  LET amt == [d \in Denoms |-> IF d = "u" THEN fee ELSE 0] IN
+  IF S.bal[a]["u"] < fee THEN Err("funds", S) ELSE SendUnrRes(S, t, a, "coll", amt)
 
-\* MsgMultiSend: inputs <<[i1,x],[i2,y]>> (second dropped when y is zero), outputs
-\* <<[o1,x],[o2,y]>> (or one output x+y when o1 = o2 is asked by shape "join")
-RECURSIVE IOIn(_, _, _, _)
-IOIn(A, B, ins, k) ==       \* debit inputs k..Len(ins); result [err, acc, bal]
-  IF k > Len(ins) THEN [err |-> "none", acc |-> A, bal |-> B]
-  ELSE IF ~CanSend(A, ins[k].a, ins[k].amt) THEN [err |-> "restricted", acc |-> A, bal |-> B]
-  ELSE LET s == SubRes(A, B, now, ins[k].a, ins[k].amt, TRUE) IN
-       IF s.err # "none" THEN s ELSE IOIn(s.acc, s.bal, ins, k + 1)
-RECURSIVE IOOut(_, _, _, _, _)
-IOOut(A, B, n, outs, k) ==
-  IF k > Len(outs) THEN [err |-> "none", acc |-> A, bal |-> B, n |-> n]
-  ELSE LET c == AddRes(A, B, n, outs[k].a, outs[k].amt) IN
-       IF c.err # "none" THEN c ELSE IOOut(c.acc, c.bal, c.n, outs, k + 1)
-Plus(x, y) == [d \in Denoms |-> x[d] + y[d]]
-InputOutputCoins(ins, outs) ==
-  LET r == R0("InputOutputCoins") @@ [ins |-> ins, outs |-> outs] IN
-  /\ Bound
-  /\ LET i == IOIn(acc, bal, ins, 1) IN
-     IF i.err # "none" THEN Fail(r, i.err)          \* message-level rollback (header)
-     ELSE LET o == IOOut(i.acc, i.bal, nextNum, outs, 1) IN
-          IF o.err # "none" THEN Fail(r, o.err)
-          ELSE Done(r, o.acc, o.bal, supply, unp, o.n)
+\* MsgMultiSend: inputs / outputs are sequences of [a, amt]
+RECURSIVE IOIn(_, _, _, _, _)
+IOIn(S, t, rst, ins, k) ==
+  IF k > Len(ins) THEN Ok(S)
+  ELSE IF ~CanSend(S, rst, ins[k].a, ins[k].amt) THEN Err("restricted", S)
+  ELSE Then(SubRes(S, t, ins[k].a, ins[k].amt, TRUE), LAMBDA s1 : IOIn(s1, t, rst, ins, k + 1))
+RECURSIVE IOOut(_, _, _)
+IOOut(S, outs, k) ==
+  IF k > Len(outs) THEN Ok(S)
+  ELSE Then(AddRes(S, outs[k].a, outs[k].amt), LAMBDA s1 : IOOut(s1, outs, k + 1))
+IORes(S, t, rst, ins, outs) ==
+  LET r == Then(IOIn(S, t, rst, ins, 1), LAMBDA s1 : IOOut(s1, outs, 1))
+  IN IF r.err # "none" THEN Err(r.err, S) ELSE r                    \* message-level rollback (header)
 
 \* supply.go
-MintCoins(a, amt) ==
-  LET r == R0("MintCoins") @@ [to |-> a, amt |-> amt] IN
-  /\ Bound /\ ~IsZero(amt)
-  /\ IF \E d \in Denoms : amt[d] > 0 /\ supply[d] + amt[d] > Cap THEN Fail(r, "range")
-     ELSE LET c == AddRes(acc, bal, nextNum, a, amt) IN
-          IF c.err # "none" THEN Fail(r, c.err)
-          ELSE Done(r, c.acc, c.bal, Plus(supply, amt), unp, c.n)
+MintRes(S, a, amt) ==
+  IF \E d \in Denoms : amt[d] > 0 /\ S.supply[d] + amt[d] > Cap THEN Err("range", S)
+  ELSE LET r == AddRes(S, a, amt) IN
+       IF r.err # "none" THEN Err(r.err, S) ELSE Ok([r.s EXCEPT !.supply = Plus(S.supply, amt)])
+BurnRes(S, t, a, amt) ==
+  IF \E d \in Denoms : amt[d] > 0 /\ S.supply[d] - amt[d] < 0 THEN Err("range", S)
+  ELSE LET r == SubRes(S, t, a, amt, TRUE) IN
+       IF r.err # "none" THEN Err(r.err, S) ELSE Ok([r.s EXCEPT !.supply = Minus(S.supply, amt)])
 
-BurnCoins(a, amt) ==
-  LET r == R0("BurnCoins") @@ [from |-> a, amt |-> amt] IN
-  /\ Bound /\ ~IsZero(amt)
-  /\ IF \E d \in Denoms : amt[d] > 0 /\ supply[d] - amt[d] < 0 THEN Fail(r, "range")
-     ELSE LET s == SubRes(acc, bal, now, a, amt, TRUE) IN
-          IF s.err # "none" THEN Fail(r, s.err)
-          ELSE Done(r, s.acc, s.bal, [d \in Denoms |-> supply[d] - amt[d]], unp, nextNum)
+\* ---- calls that do not maintain the supply counter (genesis / tests)
+RawAddRes(S, a, amt) ==
+  LET r == AddRes(S, a, amt) IN IF r.err # "none" THEN r ELSE Ok([r.s EXCEPT !.unp = Plus(S.unp, amt)])
+RawSubRes(S, t, a, amt) ==
+  LET r == SubRes(S, t, a, amt, TRUE) IN IF r.err # "none" THEN r ELSE Ok([r.s EXCEPT !.unp = Minus(S.unp, amt)])
+SetCoinsRes(S, a, amt) ==
+  LET new == S.acc[a].kind = "none" IN
+  Ok([S EXCEPT !.acc = IF new THEN [S.acc EXCEPT ![a] = [kind |-> "gno", num |-> S.n, wl |-> FALSE, vs |-> NoVs]] ELSE S.acc,
+               !.bal = [S.bal EXCEPT ![a] = amt],
+               !.unp = [d \in Denoms |-> S.unp[d] + amt[d] - S.bal[a][d]],
+               !.n = IF new THEN S.n + 1 ELSE S.n])
+RecomputeRes(S) ==
+  IF \E d \in Denoms : Held(S.bal, d) > Cap THEN Err("panic", S)
+  ELSE Ok([S EXCEPT !.supply = [d \in Denoms |-> Held(S.bal, d)], !.unp = Zero])
 
-\* ---- calls that do not maintain the supply counter (genesis / tests; RawOps)
-AddCoins(a, amt) ==
-  LET r == R0("AddCoins") @@ [to |-> a, amt |-> amt]
-      c == AddRes(acc, bal, nextNum, a, amt) IN
-  /\ Bound /\ RawOps
-  /\ IF c.err # "none" THEN Fail(r, c.err)
-     ELSE Done(r, c.acc, c.bal, supply, Plus(unp, amt), c.n)
+\* ------------------------------------------------------------------ genesis (applyBalance in order + seedSupply)
+\* account numbers are handed out in the order of the sequence
+GenIdx(a) == IF \E i \in 1..Len(Genesis) : Genesis[i].a = a
+             THEN CHOOSE i \in 1..Len(Genesis) : Genesis[i].a = a ELSE 0
+GenBal == [a \in Addrs |-> IF GenIdx(a) > 0 THEN Genesis[GenIdx(a)].amt ELSE Zero]
+GenState ==
+  [acc |-> [a \in Addrs |-> IF GenIdx(a) > 0
+                            THEN LET g == Genesis[GenIdx(a)] IN [kind |-> g.kind, num |-> GenIdx(a) - 1, wl |-> g.wl, vs |-> g.vs]
+                            ELSE NoAcc],
+   bal |-> GenBal,
+   supply |-> [d \in Denoms |-> SumOver(GenBal, Addrs, d)],
+   unp |-> Zero,
+   n |-> Len(Genesis)]
+Init ==
+  /\ acc = GenState.acc /\ bal = GenState.bal /\ supply = GenState.supply /\ unp = GenState.unp
+  /\ nextNum = GenState.n
+  /\ now = 0
+  /\ restricted = FALSE
+  /\ hist = << [act |-> "Genesis", gen |-> Genesis, addrs |-> Addrs, reply |-> "ok", st |-> Proj(GenState)] >>
+                                                               \* the behaviour carries its own initial state
+  /\ last = [act |-> "Init", reply |-> "ok"]
 
-SubtractCoins(a, amt) ==
-  LET r == R0("SubtractCoins") @@ [from |-> a, amt |-> amt]
-      s == SubRes(acc, bal, now, a, amt, TRUE) IN
-  /\ Bound /\ RawOps
-  /\ IF s.err # "none" THEN Fail(r, s.err)
-     ELSE Done(r, s.acc, s.bal, supply, [d \in Denoms |-> unp[d] - amt[d]], nextNum)
+\* ------------------------------------------------------------------ actions: apply a result to the variables, record it
+Apply(rec, r) ==
+  LET reply == IF r.err = "none" THEN "ok" ELSE r.err IN
+  /\ Len(hist) < MaxLen
+  /\ acc' = r.s.acc /\ bal' = r.s.bal /\ supply' = r.s.supply /\ unp' = r.s.unp /\ nextNum' = r.s.n
+  /\ UNCHANGED <<now, restricted>>
+  /\ hist' = Append(hist, rec @@ [reply |-> reply, st |-> Proj(r.s)])
+  /\ last' = [act |-> rec.act, reply |-> reply]
 
-SetCoins(a, amt) ==
-  LET r == R0("SetCoins") @@ [to |-> a, amt |-> amt]
-      A == IF acc[a].kind = "none" THEN [acc EXCEPT ![a] = [kind |-> "gno", num |-> nextNum, wl |-> FALSE, vs |-> NoVs]] ELSE acc IN
-  /\ Bound /\ RawOps
-  /\ Done(r, A, [bal EXCEPT ![a] = amt], supply, [d \in Denoms |-> unp[d] + amt[d] - bal[a][d]],
-          IF acc[a].kind = "none" THEN nextNum + 1 ELSE nextNum)
-
-RecomputeSupply ==
-  LET r == R0("RecomputeSupply") IN
-  /\ Bound /\ RawOps
-  /\ IF \E d \in Denoms : Held(bal, d) > Cap THEN Fail(r, "panic")
-     ELSE Done(r, acc, bal, [d \in Denoms |-> Held(bal, d)], Zero, nextNum)
+SendCoins(f, t, amt) == Apply([act |-> "SendCoins", from |-> f, to |-> t, amt |-> amt], SendRes(Cur, now, restricted, f, t, amt))
+SendCoinsUnrestricted(f, t, amt) ==
+  Apply([act |-> "SendCoinsUnrestricted", from |-> f, to |-> t, amt |-> amt], SendUnrRes(Cur, now, f, t, amt))
+DeductFee(a, fee) ==
+  /\ fee > 0 /\ acc[a].kind # "none"              \* the ante handler resolved the signer before
+  /\ Apply([act |-> "DeductFee", from |-> a, fee |-> fee], FeeRes(Cur, now, a, fee))
+InputOutputCoins(ins, outs) ==
+  Apply([act |-> "InputOutputCoins", ins |-> ins, outs |-> outs], IORes(Cur, now, restricted, ins, outs))
+MintCoins(a, amt) == ~IsZero(amt) /\ Apply([act |-> "MintCoins", to |-> a, amt |-> amt], MintRes(Cur, a, amt))
+BurnCoins(a, amt) == ~IsZero(amt) /\ Apply([act |-> "BurnCoins", from |-> a, amt |-> amt], BurnRes(Cur, now, a, amt))
+AddCoins(a, amt) == RawOps /\ Apply([act |-> "AddCoins", to |-> a, amt |-> amt], RawAddRes(Cur, a, amt))
+SubtractCoins(a, amt) == RawOps /\ Apply([act |-> "SubtractCoins", from |-> a, amt |-> amt], RawSubRes(Cur, now, a, amt))
+SetCoins(a, amt) == RawOps /\ Apply([act |-> "SetCoins", to |-> a, amt |-> amt], SetCoinsRes(Cur, a, amt))
+RecomputeSupply == RawOps /\ Apply([act |-> "RecomputeSupply"], RecomputeRes(Cur))
 
 Time(t) ==
-  /\ Bound /\ t > now /\ t <= MaxTime
+  /\ Len(hist) < MaxLen /\ t > now /\ t <= MaxTime
   /\ now' = t
   /\ UNCHANGED <<acc, bal, supply, unp, nextNum, restricted>>
-  /\ hist' = Rec(R0("Time") @@ [t |-> t], "ok", acc, bal, supply, nextNum)
+  /\ hist' = Append(hist, [act |-> "Time", t |-> t, reply |-> "ok", st |-> Proj(Cur)])
   /\ last' = [act |-> "Time", reply |-> "ok"]
 
 SetRestricted(b) ==
-  /\ Bound /\ b # restricted
+  /\ Len(hist) < MaxLen /\ b # restricted
   /\ restricted' = b
   /\ UNCHANGED <<acc, bal, supply, unp, nextNum, now>>
-  /\ hist' = Rec(R0("SetRestricted") @@ [on |-> b], "ok", acc, bal, supply, nextNum)
+  /\ hist' = Append(hist, [act |-> "SetRestricted", on |-> b, reply |-> "ok", st |-> Proj(Cur)])
   /\ last' = [act |-> "SetRestricted", reply |-> "ok"]
 
 NonZero == {x \in AmtSet : ~IsZero(x)}
@@ -272,7 +251,7 @@ Next ==
   \/ \E b \in BOOLEAN : SetRestricted(b)
 
 Spec == Init /\ [][Next]_<<vars, hist, last>>
-View == vars
+View == <<vars, Len(hist)>>     \* the depth is part of the view: bounded exploration is then independent of worker scheduling
 
 \* ------------------------------------------------------------------ properties (C14)
 \* the recorded supply equals the sum of all balances (up to credits that by contract bypass the counter)
@@ -295,7 +274,7 @@ MintBurnExact == [][last'.act \in {"MintCoins", "BurnCoins"} =>
                       \A d \in Denoms : Held(bal', d) - Held(bal, d) = supply'[d] - supply[d]]_<<vars, last>>
 \* a call that reports failure changes nothing
 FailedChangesNothing == [][last'.reply # "ok" => UNCHANGED vars]_<<vars, last>>
-\* an account never loses its number or changes address kind except vest -> base
+\* an account never loses its number, and its kind only moves vest -> base
 AccountsStable == [][\A a \in Addrs : acc[a].kind # "none" =>
                        /\ acc'[a].num = acc[a].num
                        /\ (acc'[a].kind = acc[a].kind \/ (acc[a].kind = "vest" /\ acc'[a].kind = "base"))]_vars
